@@ -1,9 +1,9 @@
 TEXT = {
  "C19": {
-  "text": "Translation validation (weakest property for this technique). For every generated command line the bytes the real binary writes with -o are compared with the Lean model's rendering of the Lean model's range result (Params::new(method) wiring, location from the four validated values, date defaults, serde's map/Result/NaiveTime rendering) - so the CLI output is tied to the same model the other nineteen properties are proved about. Theorems (every scalar type): the wiring, the date defaults, a location exists iff all four values pass their range check and then holds exactly them, the tool computes one entry per date of the range each equal to the single-date result. The falsifier decodes the file with the real serde decoder against the library API, checks -p/-i byte-identity incl. reused paths, the terminal listing, and non-zero exit just outside each range.",
+  "text": "Translation validation (weakest property for this technique). For every generated command line the bytes the real binary writes with -o are compared with the Lean model's rendering of the Lean model's range result (Params::new(method) wiring, location from the four validated values, date defaults, serde's map/Result/NaiveTime rendering) - so the CLI output is tied to the same model the other nineteen properties are proved about. Theorems (every scalar type): the wiring, the date defaults, a location exists iff all four values pass their range check and then holds exactly them, the tool computes one entry per date of the range each equal to the single-date result; and the result codec: a strict character-level decoder of the written document (Model/CliDecode.lean) is PROVED to invert the renderer on every well-formed result of any length (decode_render), the rendering is injective, every result the model computes is well formed (seven entries, each absent or h<24 m<60 s<60), hence the document written for a range in years 0..9999 decodes to exactly the per-date results of that range in order (cli_json_decodes_to_library_result). The correspondence line also carries a decode bit (real serde decoder vs library API / model decoder vs model result). The falsifier decodes the file with the real serde decoder against the library API, checks -p/-i byte-identity incl. reused paths, the terminal listing, and non-zero exit just outside each range.",
   "design_ref": "DESIGN.md §7 C19",
-  "note": "clap, serde_json, chrono's formatting and the file system are exercised, not modelled in depth; 'today' defaults are not exercised (dates are always passed).",
-  "technique": "translation validation of the real binary's output against the Lean model's rendering + Lean wiring theorems + falsifier on the real binary",
+  "note": "clap, serde_json, chrono's formatting and the file system are exercised, not modelled in depth; 'today' defaults are not exercised (dates are always passed); the parameter file's float text (shortest round-trip rendering) is not modelled - the save/load clause is decided on the real binary only.",
+  "technique": "translation validation of the real binary's output against the Lean model's rendering + Lean wiring and codec (decode-after-render) theorems + falsifier on the real binary",
  },
  "C18": {
   "text": "Bit-level theorems over all 2^64 binary64 patterns: the exact magnitude is strictly increasing in the magnitude bits, so the sign-magnitude key orders exact values; the shared range check accepts exactly the finite patterns whose exact value lies in [lo,hi] (both bounds included, lo/hi the documented numbers: boundBits_values proves their exact values), rejects every NaN and both infinities, and stores the pattern unchanged; all six types route JSON through try_from (attribute re-read from the source) so the JSON number route equals the number route. The JSON number grammar is PROVED to be contained in the text grammar with the same reading (json_grammar_in_text_grammar), hence on every JSON number the JSON and text routes agree, and whatever the JSON route accepts the text route accepts with the same pattern, for every string. The comparison order, the twelve bound patterns and a correctly rounded decimal->binary64 model (text and JSON grammars) are compared with Rust (<=, <, ==, str::parse, serde_json) on large streams; the falsifier checks the three routes and composite documents.",
@@ -24,7 +24,7 @@ TEXT = {
   "technique": "Lean 4 + Mathlib theorems over R and generic theorems + translator (tables/constants/wrap statements) + bit-level correspondence + independent-ephemeris falsifier",
  },
  "C02": {
-  "text": "PARTIAL. Proved: h0 = -0.8333 within 1e-3; the first approximation of rise/set is the hour angle H0 in (0,180) with sin(phi)sin(dec)+cos(phi)cos(dec)cos(H0)=sin(h0) exactly, so Shurooq/Maghrib sit a positive fraction of a day before/after transit (R); weather reaches only Shurooq and Maghrib, never their validity, and absent weather is the default 1010 mbar/14 C (every scalar type). Not proved: size of the Newton correction/refraction term and agreement with the sky (0.05 deg) - falsifier with the independent ephemeris.",
+  "text": "PARTIAL. Proved: h0 = -0.8333 within 1e-3; the first approximation of rise/set is the hour angle H0 in (0,180) with sin(phi)sin(dec)+cos(phi)cos(dec)cos(H0)=sin(h0) exactly, so Shurooq/Maghrib sit a positive fraction of a day before/after transit (R); weather reaches only Shurooq and Maghrib, never their validity, and absent weather is the default 1010 mbar/14 C (every scalar type); rise/set in closed form is linear in the single weather factor P/1010*283/(273+T), two weathers move the time by exactly 24*(mu-mu')*rho(alt0)/D hours, mu lies in [283/3333, 1050/1010*283/183] over the valid ranges, and |shift| <= 24*1.53*rho/D under bounds rho, D on the unit refraction and the correction denominator (R). Not proved: size of the Newton correction, the two envelope quantities rho and D, and agreement with the sky (0.05 deg) - falsifier with the independent ephemeris.",
   "design_ref": "DESIGN.md §7 C02",
   "note": "Altitude clause explored, not proved; evaluated at the literal reported instant of the requested civil date; before/after noon is read modulo 24 h.",
   "technique": "Lean 4 + Mathlib theorems over R and generic non-interference theorems + translator + correspondence + independent-ephemeris falsifier",
